@@ -6,14 +6,15 @@ from ..runner import Case, Property
 
 class C04(Property):
     id = "C04"
-    lean_module = "RosuModel.Props.C04"
+    lean_module = "RosuModel.Props.C04Slider"   # imports Props/C04.lean; both files are in namespace Rosu.C04
     namespace = "Rosu.C04"
     design_ref = "5.4"
     required_theorems = ["headers_recognised", "encode_shape", "block_starts_with_header", "encoded_text_lines", "version_line_parses",
                          "record_blocks_are_lines", "lines_of_block", "record_lines_accepted_metadata", "record_lines_accepted_colours",
                          "record_lines_accepted_editor", "record_lines_accepted_difficulty", "record_lines_accepted_general",
                          "record_lines_accepted_events", "lines_dispatched", "record_blocks_accepted_and_recovered",
-                         "hitobject_lines_accepted_partial"]
+                         "hitobject_lines_accepted_partial", "slider_line_accepted", "slider_path_text_clean", "hitobject_lines_accepted",
+                         "slider_line_leaves_clean_buffer", "hitobjects_block_accepted"]
     partial_theorems = {
         "record_lines_accepted_editor / _difficulty / _general / _events, record_blocks_accepted_and_recovered":
             "law-dependent: proved for every number codec satisfying CodecLaws (+ IntPrintLaw for AudioLeadIn), shown satisfiable by Lemmas/ToyCodec.lean; not proved of Rust's "
@@ -22,8 +23,19 @@ class C04(Property):
             "comma / outer quotes), integers within ±(2^31−1), floats representable by the codec within the parse limit and inside the field's clamp, colour components ≤ 255, custom colour "
             "names without `:` / `//` / leading `Combo`, pairwise distinct). That every *decoded* map satisfies these (the `Decoded` invariant of DESIGN 5.4) is not proved here",
         "hitobject_lines_accepted_partial": "law-dependent; covers circles, spinners and hold notes only (line is LF-free, a record line, accepted in any state, same kind of object comes back); "
-            "slider lines are missing",
-        "line acceptance for slider and [TimingPoints] lines (timing_lines_accepted, hitobject_lines_accepted, same_record_kind)":
+            "kept, now contained in hitobject_lines_accepted",
+        "slider_line_accepted / hitobject_lines_accepted": "law-dependent (CodecLaws for both float types + SliderRt.CoordLaws for path coordinates: f32 Display read back by f64 FromStr; "
+            "satisfiable by the toy codec). For each of the four kinds: the line of a REPRESENTABLE object is LF-free, a record line, accepted by parse_hit_objects in any decoder state, and "
+            "exactly one object of the same kind is pushed. For sliders representable means RepSlider: integral position, start time within the parse limit, combo offset 0..7, 0..8999 "
+            "repeats, a written length (expected length, or the computed curve length) representable and within ±131072, and a control-point list in the decidable class RepPath (see C02: "
+            "first point origin and typed, integral coordinates, well-formed types, three-point perfect curves, no repeated position where the decoder would split — F17 and consecutive "
+            "Catmull segments are outside). The ±131072 bound on the written length is forced by the decoder and is violated by the real encoder when a slider has no expected length and "
+            "its computed curve is longer than 131072 (witness `0,0,1000,2,0,L|131072:131072|-131072:-131072|131072:131072,1`: `lines` oracle: encoder wrote a line its decoder rejects): finding F20, kept as the explicit "
+            "hypothesis RepSlider.distRep. Acceptance alone needs less than RepPath (a repeated point makes the round trip lose a control point, not the line rejected); that weaker "
+            "acceptance-only statement is not proved separately. That every object of a DECODED map is representable is not proved here",
+        "hitobjects_block_accepted": "law-dependent; conditional on every object of the map being representable (SliderRt.RepObject): encode_hit_objects succeeds, the block is `[HitObjects]` plus "
+            "one LF-free record line per object (the ListBlockShape that record_blocks_accepted_and_recovered assumes), and every line is accepted when the block is run from any decoder state",
+        "line acceptance for [TimingPoints] lines and the per-map assembly (timing_lines_accepted, list_block_lines_accepted_statement)":
             "NOT yet theorems (`def list_block_lines_accepted_statement : Prop`); record_blocks_accepted_and_recovered assumes of these two blocks only that they are LF-terminated lines that "
             "are neither headers nor skipped. Evaluated on the implementation by the `lines` oracle (a wrapping decoder logs every parser call of the re-decode: no line lost, none "
             "rejected, same number of objects / timing points / breaks / colours) and by the char-for-char encoder correspondence",
@@ -33,8 +45,9 @@ class C04(Property):
                   "record blocks is its header plus an explicit list of LF-terminated record lines (record_blocks_are_lines), every one of which is neither a header nor skipped and is accepted "
                   "by its section's parser in any state (record_lines_accepted_<section>; sections with floats: for every lawful number codec); reading the text back yields exactly its own "
                   "end-trimmed lines (encoded_text_lines, via C10) and the framing driver hands each block's lines, in order, to exactly that section's parser (lines_dispatched, via C05); "
-                  "file level for the record blocks: record_blocks_accepted_and_recovered; hit-object lines of circles, spinners and hold notes: hitobject_lines_accepted_partial. "
-                  "Acceptance of slider and timing-point lines is not yet a theorem. "
+                  "file level for the record blocks: record_blocks_accepted_and_recovered; hit-object lines of all four kinds (circles, sliders incl. the whole path-string grammar over the decidable class RepPath, "
+                  "spinners, hold notes): hitobject_lines_accepted, slider_line_accepted. "
+                  "Acceptance of timing-point lines, and that every object of a decoded map is representable, are not yet theorems. "
                   "The encoder model is compared character for character with Beatmap::encode_to_string on every generated and bundled map; the property itself is evaluated on the "
                   "real code for every line of every encoding (oracle `lines`).")
     technique = "Lean 4 proof (output shape, reader inversion, per-line acceptance and dispatch for the six record sections; law-dependent where floats are printed) + char-for-char encoder correspondence + per-line acceptance oracle on the implementation"
